@@ -44,6 +44,10 @@ def nontrivial(req, obs):
         evs = [t.split(":") for t in f[3:]]
         iv = [(int(e[1]), int(e[2])) for e in evs]
         return len(evs) >= 2 and any(a[0] < b[1] and b[0] < a[1] for i, a in enumerate(iv[:200]) for b in iv[i + 1:i + 40])
+    if k == "ctx":
+        return any(t[-1] != "l" for t in f[3:]) and any(t[-1] == "l" for t in f[3:])   # a dead and a live delivery
+    if k == "ctxc":
+        return len(f) == 5 and f[4].count(";") >= 1 and re.search(r"[cxht]", f[4]) is not None
     if k in ("expire", "router"):
         return True
     if k == "timeout":
@@ -65,6 +69,7 @@ PROP = {
         "Wm.Dedup.middleware_drop_is_success", "Wm.Dedup.middleware_first_reaches_handler",
         "Wm.Dedup.middleware_key_error", "Wm.Dedup.middleware_calls_iff_accepted",
         "Wm.Dedup.middleware_none_after_first", "Wm.Dedup.middleware_exactly_one",
+        "Wm.Dedup.error_does_not_consume_key", "Wm.Dedup.middleware_error_is_clean",
         "Wm.Dedup.decorator_filters_and_acks", "Wm.Dedup.decorator_key_error_aborts",
         "Wm.Dedup.decorator_cases_exhaustive", "Wm.Dedup.decide_filters_and_acks", "Wm.Dedup.decorate_eq_decide",
         "Wm.Dedup.decorator_abort_loses_accepted_witness",
@@ -90,6 +95,12 @@ PROP = {
             "all five key-factory configurations (Adler-32, SHA-256 with limits -5..MaxInt64, metadata field, nil factory, nil Deduplicator), "
             "scripted handler outcomes and wrapped-publisher failures; mwc / decc: 1..32 goroutines present 1..4 keys concurrently "
             "through the middleware / decorator behind a spin barrier with yield injection at dedup.isduplicate.enter (-race); "
+            "ctx / ctxc: deliveries whose message context is cancelled before the call, past its deadline, cancelled at the hook "
+            "dedup.isduplicate.enter (between Deduplicator.IsDuplicate and the repository lock) or outlived there (hook sleeps past the "
+            "5 ms Timeout), followed by / mixed with redeliveries with a live context, through the middleware and through the decorator "
+            "(one message per Publish), sequentially and from 2..32 goroutines; rule: nothing is dropped as a success unless a message of "
+            "that key reached the handler / wrapped publisher, nothing reaches twice, and a key with a live-context delivery has reached "
+            "(a delivery rejected with an error must not consume the key); "
             "hash: systematic + seeded payload pairs around the 64-byte minimum and the configured limit; "
             "hist: stamped concurrent histories (1..32 goroutines, windows 1..50 ms, clean-up ticker running, via repository / "
             "middleware / decorator) checked against the timed Lean model by a per-key linearisation search whose witness is replayed on "
